@@ -1780,3 +1780,24 @@ V("c02-silent-parent-table-int-array", "C02", "silent", AN, _AN_ND, _AN_ND + "  
   more=[(AN, _AN_SEL, "                assignment = np.transpose(self.assignments[i](X[:, self._parents[i]]))\n")], what="sorted parent lists as integer index arrays (false alarm met on refactoring C02-T2-1 after the tables were read)")
 V("c02-parent-table-float-array", "C02", "fire", AN, _AN_ND, _AN_ND + "        self._parents = [np.array(sorted(utils.pa(i, self.A))) for i in range(self.p)]\n",
   more=[(AN, _AN_SEL, "                assignment = np.transpose(self.assignments[i](X[:, self._parents[i]]))\n")], rule="CASES.anm", what="np.array([]) of a node without parents is a float array: IndexError for every source node")
+
+# ------------------------------------------------------------------------------- refactoring round 7 inspired (C09: the scan written as for / else)
+_SCAN_OLD = '        found = False\n        i = 0\n        while not found and i < len(P):\n            # Check condition 1\n            sink = len(ch(i, P)) == 0\n            # Check condition 2\n            n_i = neighbors(i, P)\n            adj_i = adj(i, P)\n            adj_neighbors = np.all([adj_i - {y} <= adj(y, P) for y in n_i])\n            print("   i:", i, ": n=", n_i, "adj=", adj_i, "ch=", ch(i, P)) if debug else None\n            found = sink and adj_neighbors\n            # If found, orient all incident undirected edges and\n            # remove i from the subgraph\n            if found:\n                print("  Found candidate %d (%d)" % (i, indexes[i])) if debug else None\n                # Orient all incident undirected edges\n                real_i = indexes[i]\n                real_neighbors = [indexes[j] for j in n_i]\n                for j in real_neighbors:\n                    G[j, real_i] = 1\n                # Remove i and its incident (directed and undirected edges)\n                all_but_i = list(set(range(len(P))) - {i})\n                P = P[all_but_i, :][:, all_but_i]\n                indexes.remove(real_i)  # to keep track of the real\n                # variable indices\n            else:\n                i += 1\n        # A node which satisfies conditions 1,2 exists iff the\n        # PDAG admits a consistent extension\n        if not found:\n            raise ValueError("PDAG %s does not admit consistent extension" % oP)\n'
+_SCAN_FOR = '        for i in range(len(P)):\n            # Check condition 1\n            sink = len(ch(i, P)) == 0\n            # Check condition 2\n            n_i = neighbors(i, P)\n            adj_i = adj(i, P)\n            adj_neighbors = np.all([adj_i - {y} <= adj(y, P) for y in n_i])\n            print("   i:", i, ": n=", n_i, "adj=", adj_i, "ch=", ch(i, P)) if debug else None\n            found = sink and adj_neighbors\n            # If found, orient all incident undirected edges and\n            # remove i from the subgraph\n            if found:\n                print("  Found candidate %d (%d)" % (i, indexes[i])) if debug else None\n                # Orient all incident undirected edges\n                real_i = indexes[i]\n                real_neighbors = [indexes[j] for j in n_i]\n                for j in real_neighbors:\n                    G[j, real_i] = 1\n                # Remove i and its incident (directed and undirected edges)\n                all_but_i = list(set(range(len(P))) - {i})\n                P = P[all_but_i, :][:, all_but_i]\n                indexes.remove(real_i)  # to keep track of the real\n                # variable indices\n                break\n        else:\n            # A node which satisfies conditions 1,2 exists iff the\n            # PDAG admits a consistent extension\n            raise ValueError("PDAG %s does not admit consistent extension" % oP)\n'
+V("c09-silent-scan-for-else", "C09", "silent", UT, _SCAN_OLD, _SCAN_FOR, what="scan as `for i in range(len(P)): ... break` with the ValueError in the else suite")
+V("c08-silent-scan-for-else", "C08", "silent", UT, _SCAN_OLD, _SCAN_FOR, what="scan as `for i in range(len(P)): ... break` with the ValueError in the else suite")
+V("c09-for-else-neighbours-only", "C09", "fire", UT, _SCAN_OLD, _SCAN_FOR.replace("adj_i - {y} <= adj(y, P)", "n_i - {y} <= adj(y, P)"), rule="SINK.neighbours", what="for / else form with the weakened condition 2")
+V("c09-for-else-parents", "C09", "fire", UT, _SCAN_OLD, _SCAN_FOR.replace("sink = len(ch(i, P)) == 0", "sink = len(pa(i, P)) == 0"), rule="SINK.childless", what="for / else form removing sources")
+V("c09-for-else-from-one", "C09", "fire", UT, _SCAN_OLD, _SCAN_FOR.replace("for i in range(len(P)):", "for i in range(1, len(P)):"), rule="SCAN.complete", what="for / else form skipping node 0")
+V("c09-for-else-or", "C09", "fire", UT, _SCAN_OLD, _SCAN_FOR.replace("found = sink and adj_neighbors", "found = sink or adj_neighbors"), rule="SINK.both", what="for / else form with either condition")
+
+# ------------------------------------------------------------------------------- refactoring round 7: three false alarms of INDEX.* (C08 / C09) on correct re-spellings
+_ORI = "                real_neighbors = [indexes[j] for j in n_i]\n                for j in real_neighbors:\n                    G[j, real_i] = 1\n"
+_ABI = "                all_but_i = list(set(range(len(P))) - {i})\n"
+for _pid in ("C08", "C09"):
+    V("%s-silent-orient-inline" % _pid.lower(), _pid, "silent", UT, _ORI, "                for j in n_i:\n                    G[indexes[j], real_i] = 1\n", what="real names looked up at the store")
+    V("%s-silent-all-but-comprehension" % _pid.lower(), _pid, "silent", UT, _ABI, "                all_but_i = [j for j in range(len(P)) if j != i]\n", what="the remaining indices as a comprehension")
+    V("%s-orient-inline-local" % _pid.lower(), _pid, "fire", UT, _ORI, "                for j in n_i:\n                    G[j, real_i] = 1\n", rule="INDEX.real-names", what="inlined without the name lookup")
+    V("%s-deferred-orientation" % _pid.lower(), _pid, "undecided", UT, "    G = only_directed(P)\n    indexes = list(range(len(P)))", "    G = only_directed(P)\n    oriented = []\n    indexes = list(range(len(P)))",
+      more=[(UT, _ORI, "                oriented += [(indexes[j], indexes[i]) for j in n_i]\n"), (UT, "            raise ValueError(\"PDAG %s does not admit consistent extension\" % oP)\n    return G", "            raise ValueError(\"PDAG %s does not admit consistent extension\" % oP)\n    for (tail, head) in oriented:\n        G[tail, head] = 1\n    return G")],
+      what="orientations collected during the search and written afterwards: another form")
